@@ -929,6 +929,7 @@ type gen struct {
 	part   int
 	parts  int
 	n      *node
+	seqNo  int
 }
 
 // conc: two concurrent AddGroup calls on top of the current last; the outcome goes to the
@@ -992,6 +993,13 @@ func (g *gen) probes() {
 		}
 	}
 	g.emit(fmt.Sprintf("syncat %d %d", g.r.Intn(cnt+1), 1+g.r.Intn(8)))
+	if g.r.Chance(1, 6) {
+		edges := []string{"4294967295", "4294967296", "9223372036854775807", "9223372036854775808", "18446744073709551615",
+			"7449927343006903923", "7449927343006903925", "72057594037927936", "255", "256"}
+		e := edges[g.r.Intn(len(edges))]
+		g.emit("byheight " + e)
+		g.emit("syncat " + e + " 2")
+	}
 	if bootHook {
 		g.emit("top")
 		g.emit(fmt.Sprintf("below %d", g.r.Intn(int(g.create)+2)))
@@ -1031,6 +1039,9 @@ func (g *gen) mutator(allowCrash bool) string {
 		}
 		return g.listed[r.Intn(len(g.listed))]
 	}
+	if r.Chance(1, 25) {
+		g.create = []uint64{1 << 32, 1 << 53, 1 << 61, 4611686018427387903}[r.Intn(4)] + g.create%1000
+	}
 	var op string
 	switch x := r.Intn(100); {
 	case x < 45: // well-formed add: fresh-ish id, pre = last, parent listed
@@ -1055,8 +1066,47 @@ func (g *gen) mutator(allowCrash bool) string {
 	return op
 }
 
+// boundaryPool = the base pool plus ids with the shapes random sampling never hits: 32-byte ids
+// (the real size), 31/33, 7/9 (8 is the height-key length), leading and trailing zero bytes, a single
+// zero byte, an id that is a prefix of another id, an id starting with the fork prefix bytes.
+func (g *gen) boundaryPool() []string {
+	r := g.r
+	pool := append([]string{}, idPool...)
+	mk := func(n int, lead, trail bool) string {
+		b := r.Bytes(n)
+		if b[0] == 0x20 || b[0] == '{' || b[0] == '\t' || b[0] == '\n' || b[0] == '\r' {
+			b[0] = 0x81 // never the first byte of a JSON document (see Model: ids are not JSON)
+		}
+		if lead {
+			b[0] = 0
+			if n > 2 {
+				b[1] = 0
+			}
+		}
+		if trail {
+			b[n-1] = 0
+		}
+		return hx.Hex(b)
+	}
+	pool = append(pool, mk(32, false, false), mk(32, true, false), mk(32, false, true))
+	for _, n := range []int{1, 7, 9, 31, 33} {
+		pool = append(pool, mk(n, r.Bool(), r.Bool()))
+	}
+	pool = append(pool, "00", "a1a1", "466f726b"+mk(4, false, false))
+	// keep the pool small enough that ids repeat within a sequence
+	for len(pool) > 12 {
+		i := len(idPool) + r.Intn(len(pool)-len(idPool))
+		pool = append(pool[:i], pool[i+1:]...)
+	}
+	return pool
+}
+
 func (g *gen) randomSequence(maxOps int, allowCrash bool) {
 	g.pool = idPool
+	if g.seqNo%2 == 1 {
+		g.pool = g.boundaryPool()
+	}
+	g.seqNo++
 	g.boot(1 + g.r.Intn(3))
 	g.probes()
 	n := 1 + g.r.Intn(maxOps)
